@@ -99,6 +99,41 @@ def run_severity(run, model, work):
     return diffs
 
 
+SHIFT_TYPES = [("_Bool", "b", 1), ("unsigned char", "c", 8), ("signed char", "c", 8), ("unsigned short", "h", 16), ("short", "h", 16),
+               ("unsigned int", "i", 32), ("int", "i", 32), ("unsigned long", "l", 64), ("long", "l", 64), ("unsigned long long", "q", 64)]
+
+
+def run_shift_sites(run, model, work):
+    """single-site shifts with a Known count at the width boundaries, plain and compound, every operand type:
+    shiftTooManyBits (error) iff the count reaches the width of the PROMOTED left operand"""
+    cases, src = [], []
+    for t, b, w in SHIFT_TYPES:
+        for op in ("<<", ">>", "<<=", ">>="):
+            if t == "_Bool" and op.endswith("="):
+                continue
+            for c in sorted({w - 1, w, 31, 32, 63, 64} - {0}):
+                i = len(cases)
+                if op.endswith("="):
+                    src.append("unsigned long long f%d(%s v) { v %s %d; return v; }" % (i, t, op, c))
+                else:
+                    src.append("unsigned long long f%d(%s v) { return v %s %d; }" % (i, t, op, c))
+                cases.append((t, b, op, c))
+    path = os.path.join(work, "shift_sites.c")
+    open(path, "w").write("\n".join(src) + "\n")
+    got = {}
+    for f in vc.cppcheck_findings(path, "unix64", enable="warning", inconclusive=False):
+        if f.id == "shiftTooManyBits":
+            got[f.line - 1] = "E" if f.severity == "error" else "W"
+    ker = model_lines(model, [["shift", "32", "64", "64", b, str(c)] for (t, b, op, c) in cases])
+    diffs = []
+    for i, (case, k) in enumerate(zip(cases, ker)):
+        want = k[0].decode() if k else "?"
+        run.count("shift-sites", None, nontrivial=case, bucket="%s/%s" % (case[2], want))
+        if want != got.get(i, "N"):
+            diffs.append((case, want, got.get(i, "N"), src[i]))
+    return diffs
+
+
 # ------------------------------------------------------------------ X2 straight-line alloc/free programs
 STMTS = ["mp", "mq", "fp", "fq", "ap", "aq", "np", "nq", "dp", "dq", "rp", "rq", "r-"]
 RENDER = {"m": "%s = malloc(10);", "f": "free(%s);", "n": "%s = 0;", "d": "*%s = 1;"}
@@ -204,7 +239,7 @@ def asan_run(work, lines, call, name):
 # ------------------------------------------------------------------ X3 guarded programs
 def run_guarded(run, work, nfuncs, name):
     # fixed family (independent of VERIF_SEED; quick = a prefix of thorough), as for C03's X2
-    gen = c04_gen.Gen(random.Random("C04-x3-family-%s" % name))
+    gen = (c04_gen.WidthGen if name.startswith("w") else c04_gen.Gen)(random.Random("C04-x3-family-%s" % name))
     funcs = [gen.function("f%d" % i) for i in range(nfuncs)]
     plain = gen.prologue() + "\n".join(t for f in funcs for t in f.text) + "\n"
     path = os.path.join(work, name + ".c")
@@ -212,6 +247,7 @@ def run_guarded(run, work, nfuncs, name):
     spans, ln = {}, gen.prologue().count("\n") + 1
     for f in funcs:
         spans[f.name] = (ln, ln + len(f.text) - 1)
+        f.first_line = ln
         ln += len(f.text)
     findings = vc.cppcheck_findings(path, "unix64", enable="warning", inconclusive=False, extra=("--library=std",))
     errs = {}
@@ -285,6 +321,12 @@ def run_guarded(run, work, nfuncs, name):
 
 
 def classify_guarded(f, fd):
+    # recorded: shiftTooManyBitsSigned (error) is also raised for a RIGHT shift of a signed value by width-1, which is defined
+    # for non-negative values (and implementation-defined, never undefined, for negative ones)
+    if fd.id == "shiftTooManyBitsSigned":
+        rel = fd.line - f.first_line
+        if 0 <= rel < len(f.text) and ">>" in f.text[rel] and "<<" not in f.text[rel]:
+            return "shift-signed-right-by-width-minus-1"
     return None
 
 
@@ -314,6 +356,13 @@ def check(run, replay):
             run.violation("severity:%s:%s:%s" % (case[0], case[2], case[3]), "severity_of says %s, the binary reports %s for checker %s value kind %s warning=%s"
                           % (want, got, case[1], case[2], case[3]), {"broken": "correspondence severity_of", "program": text, "model": want, "binary": got},
                           found_input=False)
+        for case, want, got, line in run_shift_sites(run, model, work):
+            run.stream("shift-sites")["disagreements"] += 1
+            run.violation("shift-site:%s:%s:%d" % (case[0], case[2], case[3]),
+                          "shift_too_many says %s, the binary reports %s for `%s` (the left operand is promoted: width %s)" % (want, got, line, "int/long"),
+                          {"program": line + "\n", "model": want, "binary": got,
+                           "how": "cppcheck --enable=warning --platform=unix64 t.c; the count is %s the width of the promoted left operand" % ("at least" if want == "E" else "smaller than")},
+                          found_input=(want == "N"))
         # ---------------- X2
         diffs, wrong, progs, sem = [], [], [], []
         for chunk in range(1 if quick else 6):      # the analyser is slow on very large files: 2000 programs per file
@@ -385,8 +434,9 @@ def check(run, replay):
         # ---------------- X3
         rounds = 3 if quick else 30
         tot_dirty = 0
-        for rd in range(rounds):
-            bad, ndirty, findings = run_guarded(run, work, 80 if quick else 150, "g%d" % rd)
+        wrounds = 2 if quick else 10      # third family (integer widths / compound assignments), own constant seeds
+        for rd in range(rounds + wrounds):
+            bad, ndirty, findings = run_guarded(run, work, 80 if quick else 150, "g%d" % rd if rd < rounds else "w%d" % (rd - rounds))
             tot_dirty += ndirty
             seen = set()
             for f, fd, inp, nhit in bad:
